@@ -1,16 +1,27 @@
-"""C01 message numbering: theorems in coq/Props/PropC01.v over Sys/Topic.v; correspondence and
-monitor through the topic-history driver (real hub/topic/session code above memverif)."""
+"""C01 message numbering: theorems in coq/Props/PropC01.v over Sys/Topic.v (group topic) and
+Sys/TopicLoad.v (load paths of all topic kinds, peer-to-peer and 'sys' topics); correspondence
+and monitor through the topic-history driver (group) and the load-path driver
+zz_verif_c01x_test.go (p2p, sys): real hub/topic/session code above memverif."""
+import json
+import os
 import re
+import subprocess
+import time
+import vlib
 from props import statelib
+from props import topiclib as T
 from props.statelib import kvs
 
 
 def monitor(sc, views):
+    """The C01 trace laws on one topic's history.  Scenario attributes used when present:
+    seed_seqid / seed_msgs (numbers issued before the history starts)."""
     res = []
-    shown = {}          # seq -> (content, from) as first shown
-    max_shown = 0
+    shown = dict(getattr(sc, "seed_msgs", {}))          # seq -> (content, from) as first shown
+    max_shown = getattr(sc, "seed_seqid", 0)
     last_issued = None  # last acknowledged number since the last (re)load
     acked = set()
+    floor = max_shown   # highest number known to be issued (acknowledged here or before the history)
     faulted = False     # a store fault or crash has happened in this history
     pending_fail = None # number a failed publish would have had
     failed_contents = set()
@@ -19,15 +30,14 @@ def monitor(sc, views):
         fault, kind, args = sc.ops[k]
         if fault != "N":
             faulted = True
-        if kind in ("unload", "restart") or (fault != "N" and fault[0] == "C") or (not prev_loaded and v.loaded):
-            # the topic has been (re)loaded, or will be before the next publish
-            if not prev_loaded and v.loaded or kind in ("unload", "restart"):
-                pass
         reloaded_now = (not prev_loaded and v.loaded)
         if reloaded_now:
             last_issued = None
         for sid, t in sorted(v.frames, key=lambda x: 0 if x[1].startswith("ctrl 202") else 1):
             if t.startswith("ctrl 202"):
+                if "seq" not in kvs(t):
+                    # hub.routeCli: topic not loaded, "accepted" without a number: nothing is numbered
+                    continue
                 n = int(kvs(t)["seq"])
                 content = str(args[1])
                 if n in acked:
@@ -48,6 +58,7 @@ def monitor(sc, views):
                     res.append(("number-content-agree", k, "number %d acknowledged for content %s, shown earlier with %s" % (n, content, shown[n][0])))
                 shown.setdefault(n, (content, sc.sessions.get(args[0])))
                 max_shown = max(max_shown, n)
+                floor = max(floor, n)
             elif t.startswith("data "):
                 d = kvs(t)
                 n = int(d["seq"])
@@ -62,10 +73,10 @@ def monitor(sc, views):
                 d = kvs(t)
                 n = int(d["seq"])
                 if d["acs"] != "-/-" and "R" in statelib.eff(*d["acs"].split("/")) and sid in v.csess:
-                    if n < (max(acked) if acked else 0):
-                        res.append(("desc-seq-current", k, "description shows seq=%d, %d was acknowledged" % (n, max(acked))))
-                    elif not faulted and n != (max(acked) if acked else 0):
-                        res.append(("desc-seq-current", k, "description shows seq=%d, last acknowledged %d (no fault occurred)" % (n, max(acked) if acked else 0)))
+                    if n < floor:
+                        res.append(("desc-seq-current", k, "description shows seq=%d, %d was acknowledged" % (n, floor)))
+                    elif not faulted and n != floor:
+                        res.append(("desc-seq-current", k, "description shows seq=%d, last acknowledged %d (no fault occurred)" % (n, floor)))
                 max_shown = max(max_shown, n)
         if kind == "pub":
             codes = [t for sid, t in v.frames if sid == args[0] and t.startswith("ctrl ")]
@@ -75,9 +86,16 @@ def monitor(sc, views):
                     pending_fail = last_issued + 1
         if kind in ("unload", "restart") or (fault != "N" and fault[0] == "C") or not v.loaded:
             pending_fail = None
+        if kind == "restart" or (fault != "N" and fault[0] == "C"):
+            # the process was restarted: whatever is loaded now was (re)loaded from the store
+            last_issued = None
         # the persisted mark bounds everything shown
         if v.topic and v.topic.get("seqid", 0) < max_shown:
             res.append(("mark-above-shown", k, "stored seqid %d below a shown number %d" % (v.topic["seqid"], max_shown)))
+        if not v.topic and getattr(sc, "kind", "grp") == "p2p":
+            # both subscriptions of the p2p topic were deleted: the topic and its messages are gone,
+            # a topic created later under the same name is a new topic
+            shown, max_shown, floor, acked, last_issued, pending_fail = {}, 0, 0, set(), None, None
         prev_loaded = v.loaded
     return res
 
@@ -98,14 +116,396 @@ def line_f(kind, l):
     return None
 
 
-def desc_only_seq(t):
-    return t
+# ---------------------------------------------------------------------------------------------
+# load paths of p2p and sys topics (driver zz_verif_c01x_test.go, model Sys/TopicLoad.v)
+
+class XScn(T.Scn):
+    kind = "p2p"
+    seed_seqid = 0
+    seed_msgs = {}
+
+    def clone(self, ops):
+        s = XScn(self.id)
+        s.head, s.nusers, s.sessions = self.head, self.nusers, self.sessions
+        s.kind, s.seed_seqid, s.seed_msgs = self.kind, self.seed_seqid, self.seed_msgs
+        s.ops = list(ops)
+        return s
+
+
+P2P_ACC = [47, 47, 47, 63, 31, 15, 47, 46, 11]
+P2P_MODES = [31, 31, 31, 47, 31, 27, 29, 30, 15, 31, 0]   # JRWPA, JRWPS, no W, no R, no J, no A, N
+
+
+def fault_of(rng, faults):
+    if faults and rng.random() < faults:
+        return rng.choice(["F", "F", "C"]) + str(rng.randint(1, 4))
+    return "N"
+
+
+def gen_seed_msgs(rng, sc, seqid, authors):
+    msgs = {}
+    for i in range(1, seqid + 1):
+        if rng.random() < 0.85:
+            frm = rng.choice(authors)
+            msgs[i] = (str(10 + i), frm)
+            sc.head.append("msg %d from=%d content=%d" % (i, frm, 10 + i))
+    sc.seed_msgs = msgs
+    sc.seed_seqid = seqid
+
+
+def gen_p2p(rng, sid, faults):
+    sc = XScn(sid)
+    sc.kind = "p2p"
+    sc.nusers = 2
+    exists = rng.random() < 0.65
+    seqid = rng.choice([0, 1, 2, 3, 5, 7, 9]) if exists else 0
+    delid = rng.choice([0, 0, 1, 2, 4]) if exists else 0
+    sc.head.append("scn %s kind=p2p exists=%d seqid=%d delid=%d" % (sid, 1 if exists else 0, seqid, delid))
+    for i in (1, 2):
+        sc.head.append("user %d acc=%d root=0" % (i, rng.choice(P2P_ACC)))
+    sc.seed_msgs, sc.seed_seqid = {}, 0
+    if exists:
+        # which load branch the first attach takes: both rows live / one missing or soft-deleted / none live
+        shape = rng.choice(["both", "both", "one", "one", "one", "one", "none"])
+        rows = {1: "live", 2: "live"}
+        if shape == "one":
+            rows[rng.choice([1, 2])] = rng.choice(["deleted", "deleted", "missing"])
+        elif shape == "none":
+            rows = {1: rng.choice(["deleted", "missing"]), 2: rng.choice(["deleted", "missing"])}
+        for i in (1, 2):
+            if rows[i] != "missing":
+                sc.head.append("subrow %d want=%d given=%d deleted=%d" % (i, rng.choice(P2P_MODES), rng.choice(P2P_MODES[:-1]),
+                                                                          1 if rows[i] == "deleted" else 0))
+        gen_seed_msgs(rng, sc, seqid, [1, 2])
+    s = 0
+    for i in (1, 2):
+        for _ in range(rng.choice([1, 1, 2])):
+            s += 1
+            sc.sessions[s] = i
+            sc.head.append("sess %d %d" % (s, i))
+    sids = sorted(sc.sessions)
+    ops = []
+    def sub_kind():
+        # mostly by the usrXXX name, sometimes by the p2pAAABBB name
+        return "subp" if rng.random() < 0.2 else "sub"
+    for x in sids:
+        if rng.random() < 0.7:
+            ops.append((fault_of(rng, faults * 0.5), sub_kind(), [x]))
+    for _ in range(rng.randint(6, 20)):
+        x = rng.choice(sids)
+        r = rng.random()
+        flt = fault_of(rng, faults)
+        if r < 0.36:
+            ops.append((flt, "pub", [x, 100 + len(ops), 1 if rng.random() < 0.15 else 0]))
+        elif r < 0.50:
+            ops.append((flt, sub_kind(), [x]))
+        elif r < 0.57:
+            ops.append(("N", "leave", [x, 0]))
+        elif r < 0.66:
+            ops.append((flt, "leave", [x, 1]))
+        elif r < 0.73:
+            ops.append((flt, "getdata", [x]))
+        elif r < 0.80:
+            ops.append((flt, "getdesc", [x]))
+        elif r < 0.92:
+            # idle unload then re-attach: every session leaves (one of them possibly unsubscribing)
+            un = rng.choice(sids) if rng.random() < 0.5 else None
+            for y in sids:
+                ops.append(("N", "leave", [y, 1 if y == un else 0]))
+            ops.append(("N", "unload", []))
+            ops.append((fault_of(rng, faults), sub_kind(), [rng.choice(sids)]))
+        elif r < 0.95:
+            ops.append(("N", "unload", []))
+        else:
+            ops.append(("N", "restart", []))
+    sc.ops = ops
+    return sc
+
+
+def gen_sys(rng, sid, faults):
+    sc = XScn(sid)
+    sc.kind = "sys"
+    n = rng.choice([2, 3, 3])
+    sc.nusers = n
+    seqid = rng.choice([0, 0, 1, 2, 4, 6])
+    delid = rng.choice([0, 0, 1, 3])
+    sc.head.append("scn %s kind=sys exists=1 seqid=%d delid=%d" % (sid, seqid, delid))
+    nroot = 2 if (n == 3 and rng.random() < 0.3) else 1
+    for i in range(1, n + 1):
+        sc.head.append("user %d acc=47 root=%d" % (i, 1 if i <= nroot else 0))
+    for i in range(1, n + 1):
+        # stored subscriptions: root users often, the others rarely (subscribed while they were root);
+        # sometimes self-banned (want without J) or banned (given without J)
+        if rng.random() < (0.5 if i <= nroot else 0.12):
+            sc.head.append("subrow %d want=%d given=%d deleted=%d" % (i, rng.choice([79, 79, 79, 79, 0, 78]), rng.choice([79, 79, 79, 79, 78]),
+                                                                      1 if rng.random() < 0.3 else 0))
+    gen_seed_msgs(rng, sc, seqid, list(range(1, n + 1)))
+    s = 0
+    for i in range(1, n + 1):
+        for _ in range(rng.choice([1, 1, 2])):
+            s += 1
+            sc.sessions[s] = i
+            sc.head.append("sess %d %d" % (s, i))
+    sids = sorted(sc.sessions)
+    ops = []
+    for _ in range(rng.randint(6, 18)):
+        x = rng.choice(sids)
+        r = rng.random()
+        flt = fault_of(rng, faults)
+        if r < 0.50:
+            ops.append((flt, "pub", [x, 100 + len(ops), 1 if rng.random() < 0.15 else 0]))
+        elif r < 0.64:
+            ops.append((flt, "sub", [x]))
+        elif r < 0.69:
+            ops.append(("N", "leave", [x, 0]))
+        elif r < 0.74:
+            ops.append((flt, "leave", [x, 1]))
+        elif r < 0.81:
+            ops.append((flt, "getdata", [x]))
+        elif r < 0.88:
+            ops.append((flt, "getdesc", [x]))
+        elif r < 0.90:
+            ops.append(("N", "unload", []))
+        else:
+            ops.append(("N", "restart", []))
+    sc.ops = ops
+    return sc
+
+
+def x_run_impl(ctx, scns, tag="x"):
+    fin = os.path.join(ctx.work, "xscn_%s.in" % tag)
+    fout = os.path.join(ctx.work, "xscn_%s.impl" % tag)
+    with open(fin, "w") as f:
+        for sc in scns:
+            f.write("\n".join(sc.lines()) + "\n")
+    if os.path.exists(fout):
+        os.remove(fout)
+    env = dict(vlib.GOENV, VERIF_IN=fin, VERIF_OUT=fout)
+    p = subprocess.run([os.path.join(vlib.BUILD, "maindrv.test"), "-test.run", "^TestVerifC01x$", "-test.count=1", "-test.timeout=3000s"],
+                       stdout=subprocess.PIPE, stderr=subprocess.STDOUT, env=env, cwd=os.path.join(vlib.REPO, "server"), timeout=3400)
+    out = p.stdout.decode("utf8", "replace")
+    lines = open(fout).read().split("\n") if os.path.exists(fout) else []
+    log = "\n".join(l for l in out.split("\n") if not (len(l) > 3 and l[0] in "IWE" and l[1:3] == "20"))
+    return p.returncode, T.parse_blocks(lines), log
+
+
+def x_run_model(ctx, scns):
+    lines = []
+    for sc in scns:
+        lines += sc.lines()
+    rc, out, err = ctx.run_model("c01x", lines)
+    flat = []
+    for o in out:
+        flat += o.split("\n")
+    return rc, T.parse_blocks(flat), err
+
+
+def x_norm_frame(t):
+    if t.startswith("ctrl 202"):
+        d = kvs(t)
+        return "ctrl 202" + (" seq=" + d["seq"] if "seq" in d else "")
+    if t.startswith("data "):
+        return t
+    if t.startswith("desc "):
+        return "desc seq=" + kvs(t)["seq"]
+    return None
+
+
+def x_project(op):
+    """The projection C01 compares on p2p / sys histories: acknowledgements, data copies, desc.seq per session;
+    stored seqid / delid and message rows; cached lastID / delID; loaded; number of adapter calls."""
+    fr = {}
+    for sid, t in op["frames"]:
+        n = x_norm_frame(t)
+        if n and sid != 0:
+            fr.setdefault(sid, []).append(n)
+    store = []
+    for l in op["store"]:
+        if l.startswith("topic "):
+            store.append(l.split(" owner=")[0])
+        elif l.startswith("msg "):
+            store.append(re.sub(r" delid=\S+", "", l))
+    cache = [l.split(" owner=")[0] for l in op["cache"] if l.startswith("lastid")]
+    return {"frames": fr, "store": store, "cache": cache, "loaded": op["loaded"], "calls": op["calls"]}
+
+
+def x_views(blocks):
+    vs = []
+    for b in blocks:
+        b2 = dict(b)
+        b2["cache"] = [l for l in b["cache"] if not l.startswith("pdel")]
+        vs.append(statelib.View(b2))
+    return vs
+
+
+def x_monitor(sc, blocks):
+    res = monitor(sc, x_views(blocks))
+    for k, b in enumerate(blocks):
+        if b["hang"]:
+            res.append(("hang", k, b["hang"]))
+    return res
+
+
+def run_load_paths(ctx):
+    quick = ctx.tier == "quick"
+    rng = ctx.rng
+    scns = []
+    if ctx.replay:
+        rp = json.load(open(ctx.replay))["replay"]
+        sc = XScn(rp["head"][0].split()[1])
+        sc.head = rp["head"]
+        sc.ops = [tuple(o) for o in rp["ops"]]
+        sc.kind = kvs(sc.head[0])["kind"]
+        sc.seed_seqid = int(kvs(sc.head[0])["seqid"])
+        sc.seed_msgs = {}
+        for l in sc.head:
+            w = l.split()
+            if w[0] == "msg":
+                sc.seed_msgs[int(w[1])] = (kvs(l)["content"], int(kvs(l)["from"]))
+            elif w[0] == "sess":
+                sc.sessions[int(w[1])] = int(w[2])
+        scns = [sc]
+    else:
+        np2p, nsys = (110, 45) if quick else (2500, 800)
+        for i in range(np2p):
+            scns.append(gen_p2p(rng, "x%d" % i, 0.0 if i % 2 == 0 else 0.22))
+        for i in range(nsys):
+            scns.append(gen_sys(rng, "y%d" % i, 0.0 if i % 2 == 0 else 0.22))
+    t0 = time.time()
+    rc, impl, log = x_run_impl(ctx, scns)
+    t_impl = time.time() - t0
+    if rc != 0 or any(sc.id not in impl or len(impl[sc.id]) != len(sc.ops) for sc in scns):
+        bad = next((sc for sc in scns if sc.id not in impl or len(impl[sc.id]) != len(sc.ops)), None)
+        ctx.violation("monitor", "server-crashed", "the server process died or stopped answering while running p2p/sys scenario %s: %s"
+                      % (bad.id if bad else "?", log[-1500:]),
+                      {"part": "loadpaths", "head": bad.head if bad else [], "ops": bad.ops if bad else [], "log": log[-4000:]})
+        return
+    rc, model, err = x_run_model(ctx, scns)
+    if rc != 0:
+        ctx.violation("proof", "runner-crashed", "model runner (c01x) failed: " + err[-1500:], {"theorem_or_obligation": "model runner c01x"})
+        return
+    fails = []
+    for sc in scns:
+        for law, k, detail in x_monitor(sc, impl[sc.id]):
+            fails.append((sc, law, k, detail))
+    seen = {}
+    for sc, law, k, detail in fails:
+        seen.setdefault(law, []).append((sc, k, detail))
+    nshrunk = 0
+    for law, lst in seen.items():
+        sc, k, detail = min(lst, key=lambda x: len(x[0].ops))
+        small = sc.clone(sc.ops[:k + 1])
+        if nshrunk < 3 and not ctx.replay:
+            nshrunk += 1
+
+            def still_bad(c, law=law):
+                rc2, im2, _ = x_run_impl(ctx, [c], tag="shrink")
+                return rc2 == 0 and c.id in im2 and len(im2[c.id]) == len(c.ops) and any(l == law for l, _, _ in x_monitor(c, im2[c.id]))
+            small = T.shrink(ctx, small, still_bad, budget=15 if quick else 120)
+        ctx.violation("monitor", law, "law %s fails on the implementation's trace of a %s topic (%d scenarios this run): %s"
+                      % (law, sc.kind, len(lst), detail),
+                      {"part": "loadpaths", "head": small.head, "ops": small.ops, "law": law, "detail": detail, "scenarios_failing": len(lst)})
+    mism = []
+    for sc in scns:
+        io, mo = impl[sc.id], model.get(sc.id, [])
+        if len(io) != len(mo):
+            mism.append((sc, -1, "shape %d/%d" % (len(io), len(mo))))
+            continue
+        for k in range(len(io)):
+            a, b = x_project(io[k]), x_project(mo[k])
+            if a != b:
+                d = {key: (a[key], b[key]) for key in a if a[key] != b[key]}
+                mism.append((sc, k, d))
+                break
+    if mism and not fails:
+        sc, k, d = min(mism, key=lambda x: len(x[0].ops))
+        base = sc.clone(sc.ops[:k + 1]) if k >= 0 else sc
+        # failing-input search near the disagreement: continue the disagreeing prefix with publishes, reloads and queries
+        pool = []
+        sids = sorted(sc.sessions)
+        for j in range(40 if quick else 400):
+            c = base.clone(list(base.ops))
+            c.id = "n%d" % j
+            c.head = [re.sub(r"^scn \S+", "scn " + c.id, base.head[0])] + base.head[1:]
+            extra = []
+            for _ in range(rng.randint(1, 6)):
+                x = rng.choice(sids)
+                extra.append(rng.choice([("N", "pub", [x, 900 + len(extra), 0]), ("N", "sub", [x]), ("N", "getdata", [x]), ("N", "getdesc", [x]),
+                                         ("N", "leave", [x, 0]), ("N", "unload", []), ("N", "restart", []), ("N", "pub", [x, 950 + len(extra), 0])]))
+            c.ops = list(base.ops) + extra
+            pool.append(c)
+        rc2, im2, _ = x_run_impl(ctx, pool, tag="search")
+        if rc2 == 0:
+            for c in pool:
+                if c.id in im2 and len(im2[c.id]) == len(c.ops):
+                    hit = x_monitor(c, im2[c.id])
+                    if hit:
+                        law, kk, detail = hit[0]
+                        ctx.violation("monitor", law, "law %s fails on the implementation's trace of a %s topic: %s" % (law, c.kind, detail),
+                                      {"part": "loadpaths", "head": c.head, "ops": c.ops[:kk + 1], "law": law, "detail": detail,
+                                       "found_by": "search near a correspondence mismatch"})
+                        fails.append((c, law, kk, detail))
+                        break
+        if not fails:
+            ctx.violation("corr", "correspondence-loadpaths-" + (sc.ops[k][1] if k >= 0 else "shape"),
+                          "model (Sys/TopicLoad.v) and implementation disagree on %d of %d %s histories on C01's projection; first (prefix): op %d %s: %s; no law failure found on %d neighbouring histories"
+                          % (len(mism), len(scns), "p2p/sys", k, sc.ops[k] if k >= 0 else "", json.dumps(d, default=str)[:800], len(pool)),
+                          {"part": "loadpaths", "correspondence": "projection of C01 on p2p/sys histories", "head": base.head, "ops": base.ops, "diff": d})
+    # coverage
+    kinds, faults_seen, branches, acks = {}, {}, {}, 0
+    nops = 0
+    nt = set()
+    for sc in scns:
+        sig = []
+        prev_loaded = sc.kind == "sys"
+        for k, o in enumerate(sc.ops):
+            nops += 1
+            b = impl[sc.id][k]
+            kinds[sc.kind + ":" + o[1]] = kinds.get(sc.kind + ":" + o[1], 0) + 1
+            if o[0] != "N":
+                faults_seen[o[0]] = faults_seen.get(o[0], 0) + 1
+            if b["loaded"] == "1" and not prev_loaded or o[1] == "restart" and sc.kind == "sys":
+                # which load branch ran: read off the adapter calls of the loading request
+                cl = b["calllog"]
+                br = ("p2p new topic" if "TopicCreateP2P" in cl else "p2p one subscription recreated" if "UserGetAll" in cl else
+                      "p2p both subscriptions" if sc.kind == "p2p" else "sys")
+                branches[br] = branches.get(br, 0) + 1
+            prev_loaded = b["loaded"] == "1"
+            acks += sum(1 for sid, t in b["frames"] if t.startswith("ctrl 202 seq"))
+            sig.append((o, tuple(b["frames"])))
+        if any(t.startswith("ctrl 202 seq") for b in impl[sc.id] for sid, t in b["frames"]):
+            nt.add(hash(tuple(map(repr, sig))))
+    ctx.coverage["load_paths"] = {
+        "evaluations": len(scns), "distinct_nontrivial": len(nt), "operations_executed": nops,
+        "rule": "seeded random histories on one peer-to-peer topic (stored state seeded: absent / both subscriptions / one missing or soft-deleted / none live, seqid 0-9 with holes, delid 0-4; 2 users x 1-2 sessions; sub, pub, leave, leave+unsub, get data, get desc, idle unload + re-attach through every branch of initTopicP2P, restart) and on the 'sys' topic (root subscribers, any user publishes, restart reloads it), half of the histories with a failing (F k) or crashing (C k) adapter call k=1..4 on random requests; non-trivial = at least one acknowledged number; distinct by (ops, replies)",
+        "load_branches_taken": branches, "acknowledged_numbers": acks, "op_kinds": kinds, "faults": faults_seen,
+        "correspondence_mismatches": len(mism), "monitor_failures": len(fails), "impl_wall_s": round(t_impl, 1),
+        "samples": [{"head": sc.head, "ops": sc.ops} for sc in scns[:1]],
+    }
 
 
 def run(ctx):
+    rp = None
+    if ctx.replay:
+        rp = json.load(open(ctx.replay)).get("replay", {})
+    # proofs and builds once for both parts
+    proof = ctx.coq_props(())
+    vlib.proof_violation(ctx)
+    ok_r, out_r = ctx.build_runner()
+    ok_m, out_m = ctx.build_main()
+    if ok_r and ok_m and ctx.proof_ok() and (rp is None or rp.get("part") == "loadpaths"):
+        run_load_paths(ctx)
+        if rp is not None:
+            ctx.coverage.setdefault("trusted_base", []).append("harness/overlay/server/zz_verif_c01x_test.go: p2p/sys load-path driver")
+            ctx.finish()
+    ctx.violations = [v for v in ctx.violations if v["key"] != "proof-broken"]   # re-raised by run_stateful
+    ctx.coq_props = lambda extra_files=(): proof
+    ctx.build_runner = lambda: (ok_r, out_r)
+    ctx.build_main = lambda tags="verif": (ok_m, out_m)
     statelib.run_stateful(
         ctx, [("msg", 0.0, 0.45), ("msg", 0.25, 0.45), ("perm", 0.1, 0.1)], monitor,
         dict(ops=None, frame=frame_f, line=line_f, keys=("frames", "store", "cache", "calls")),
-        rule="seeded random histories over one group topic: 2-5 users x 1-2 sessions (owner / plain / write-less / read-less publishers), pub interleaved with get/del/note/leave/sub, unload and restart at random positions, and for about half of the histories a failing (F k) or crashing (C k) adapter call k=1..4 on random requests; non-trivial = at least one accepted mutating request; distinct by (ops, replies)",
-        trusted=["projection compared for C01: 202 acks, data frames, desc, stored seqid and message numbers, cached lastID, number of adapter calls per request",
+        rule="seeded random histories over one group topic: 2-5 users x 1-2 sessions (owner / plain / write-less / read-less publishers), pub interleaved with get/del/note/leave/sub, unload and restart at random positions, and for about half of the histories a failing (F k) or crashing (C k) adapter call k=1..4 on random requests; non-trivial = at least one accepted mutating request; distinct by (ops, replies); PLUS the p2p/sys load-path histories reported under coverage.load_paths",
+        trusted=["projection compared for C01: 202 acks, data frames, desc, stored seqid and message numbers, cached lastID, number of adapter calls per request (p2p/sys histories: also stored/cached delID and the loaded flag)",
+                 "harness/overlay/server/zz_verif_c01x_test.go: p2p/sys load-path driver (stored state seeded through the store mappers; 'sys' row reset between scenarios)",
                  "the reduction 'all publishes of a topic are handled by one goroutine, so any interleaving of sessions is some order of requests' is exercised, not proved"])
